@@ -499,7 +499,7 @@ impl TimeUtilities for Time {
     /// Wraps around from `23:59:59` to `00:00:00`
     fn add_hours(&self, hours: u32) -> Self {
         Self {
-            nanoseconds: add_hours(self.nanoseconds, hours) % (SECS_PER_DAY_U64 * NANOS_PER_SEC),
+            nanoseconds: (add_hours(self.nanoseconds, hours) % NANOS_PER_DAY as u128) as u64,
             offset: self.offset,
         }
     }
@@ -507,8 +507,7 @@ impl TimeUtilities for Time {
     /// Wraps around from `23:59:59` to `00:00:00`
     fn add_minutes(&self, minutes: u32) -> Self {
         Self {
-            nanoseconds: add_minutes(self.nanoseconds, minutes)
-                % (SECS_PER_DAY_U64 * NANOS_PER_SEC),
+            nanoseconds: (add_minutes(self.nanoseconds, minutes) % NANOS_PER_DAY as u128) as u64,
             offset: self.offset,
         }
     }
@@ -549,7 +548,7 @@ impl TimeUtilities for Time {
     /// Wraps around from `00:00:00` to `23:59:59`
     fn sub_hours(&self, hours: u32) -> Self {
         let new_nanos = sub_hours(self.nanoseconds as i64, hours);
-        let rhs = SECS_PER_DAY_U64 as i64 * NANOS_PER_SEC as i64;
+        let rhs = NANOS_PER_DAY as i128;
         Self {
             nanoseconds: new_nanos.rem_euclid(rhs) as u64,
             offset: self.offset,
@@ -559,7 +558,7 @@ impl TimeUtilities for Time {
     /// Wraps around from `00:00:00` to `23:59:59`
     fn sub_minutes(&self, minutes: u32) -> Self {
         let new_nanos = sub_minutes(self.nanoseconds as i64, minutes);
-        let rhs = SECS_PER_DAY_U64 as i64 * NANOS_PER_SEC as i64;
+        let rhs = NANOS_PER_DAY as i128;
         Self {
             nanoseconds: new_nanos.rem_euclid(rhs) as u64,
             offset: self.offset,
